@@ -10,6 +10,11 @@ From IT.gen Require Import GenInventory.
 Open Scope string_scope.
 
 Theorem SRC_inventory_id : inv_id = [
+  ("use alloc :: vec :: Vec", ["#[cfg(not(feature='std'))]"]);
+  ("use core :: { fmt , num :: NonZeroUsize }", ["#[cfg(not(feature='std'))]"]);
+  ("use serde :: { Deserialize , Serialize }", ["#[cfg(feature='deser')]"]);
+  ("use std :: { fmt , num :: NonZeroUsize }", ["#[cfg(feature='std')]"]);
+  ("use crate :: { debug_pretty_print :: DebugPrettyPrint , relations :: { insert_last_unchecked , insert_with_neighbors } , siblings_range :: SiblingsRange , Ancestors , Arena , Children , Descendants , FollowingSiblings , NodeError , PrecedingSiblings , Predecessors , ReverseChildren , ReverseTraverse , Traverse , }", []);
   ("struct NodeId", ["PartialEq"; "Eq"; "PartialOrd"; "Ord"; "Copy"; "Clone"; "Debug"; "Hash"; "feature='deser'=>Deserialize"; "feature='deser'=>Serialize"]);
   ("struct NodeStamp", ["PartialEq"; "Eq"; "PartialOrd"; "Ord"; "Copy"; "Clone"; "Debug"; "Hash"; "Default"; "feature='deser'=>Deserialize"; "feature='deser'=>Serialize"]);
   ("impl NodeStamp", ["is_removed"; "as_removed"; "reuseable"; "reuse"]);
